@@ -939,10 +939,13 @@ func undoSigner(c *types.ChangeLog, processor types.ChangeLogProcessor) error {
 // NewCodeLog records contract code setting
 func NewCodeLog(address common.Address, processor types.ChangeLogProcessor, code types.Code) *types.ChangeLog {
 	account := processor.GetAccount(address)
+	// the code which is replaced. It is nil almost always, but a second CREATE in one transaction targets the same address
+	oldCode, _ := account.GetCode()
 	return &types.ChangeLog{
 		LogType: CodeLog,
 		Address: account.GetAddress(),
 		Version: account.GetNextVersion(CodeLog),
+		OldVal:  oldCode,
 		NewVal:  code,
 	}
 }
@@ -960,7 +963,8 @@ func redoCode(c *types.ChangeLog, processor types.ChangeLogProcessor) error {
 
 func undoCode(c *types.ChangeLog, processor types.ChangeLogProcessor) error {
 	accessor := processor.GetAccount(c.Address)
-	accessor.SetCode(nil)
+	oldCode, _ := c.OldVal.(types.Code)
+	accessor.SetCode(oldCode)
 	return nil
 }
 
